@@ -82,6 +82,7 @@ public:
     // handles of the observation of the parent state (taken before the step): kept alive over the step
     obs::Pool prepool;
     bool keep_pool = false;
+    bool quiet = false;     // corpus generation inside another check: no counters, no case bookkeeping
     std::string canon_pre(const nix::File &f) { return obs::render(obs::observe(f, oopt, keep_pool ? &prepool : nullptr)); }
     // compare what the OLD handles show after the step with what fresh handles show; returns "" or "<key>: diff"
     std::string stale_handles(const obs::Node &fresh_tree) {
@@ -126,7 +127,7 @@ public:
             materialize(s, se);
             s.key = key_of(canon(se.file), s);
             se.close();
-            if (seen.insert(s.key).second) { frontier.push_back(s); vf::distinct("states", s.key); if (all_states) all_states->push_back(s); }
+            if (seen.insert(s.key).second) { frontier.push_back(s); if (!quiet) vf::distinct("states", s.key); if (all_states) all_states->push_back(s); }
         }
         bool split = vf::opt.nshards <= 1;   // has the frontier been partitioned among the shards yet?
         long caseno = 0;
@@ -137,7 +138,7 @@ public:
                 frontier.swap(mine);
                 split = true;
             }
-            bool counting = split || vf::opt.shard == 0;   // the shared prefix of the search is counted once
+            bool counting = !quiet && (split || vf::opt.shard == 0);   // the shared prefix of the search is counted once
             std::vector<State> next;
             for (const State &p : frontier) {
                 int nops = (int)alpha.size();
@@ -148,8 +149,7 @@ public:
                     if (vf::deadline_hit()) { vf::set_exhaustive(false); goto done; }
                     long cid = caseno++ * std::max(1, vf::opt.nshards) + vf::opt.shard;
                     if (skip(cid)) continue;
-                    vf::take_case(cid);
-                    vf::case_desc(hist_str(alpha, p, op));
+                    if (!quiet) { vf::take_case(cid); vf::case_desc(hist_str(alpha, p, op)); }
                     if (dirty) {
                         try {
                             materialize(p, se); pre = canon_pre(se.file); dirty = false;
@@ -164,8 +164,7 @@ public:
                     if (counting) vf::count("transitions");
                     State c; c.seed = p.seed; c.hist = p.hist; c.hist.push_back(op); c.fresh = (op == REOPEN);
                     c.key = key_of(post, c);
-                    vf::distinct("states", c.key);
-                    vf::distinct("observable_states", key_of(post, true));
+                    if (!quiet) { vf::distinct("states", c.key); vf::distinct("observable_states", key_of(post, true)); }
                     if (seen.insert(c.key).second) {
                         next.push_back(c);
                         if (all_states) all_states->push_back(c);
@@ -174,7 +173,7 @@ public:
                 }
             }
             frontier.swap(next);
-            vf::note("level_completed", std::to_string(level));
+            if (!quiet) vf::note("level_completed", std::to_string(level));
         }
     done:
         prepool.clear();
